@@ -34,6 +34,10 @@ Definition valid1 (s : opsyn) (ops : list operand) : Prop :=
   | SVecElem et _ w _ _ lanes, OVec rt' et' ei id :: _ => rt' = 4 /\ et' = et /\ 0 <= ei < lanes /\ 0 <= id < 2 ^ w   (* lane inside the vector *)
   | SGpDup x hi _ _, OGp x' id :: _ => x = x' /\ (0 <= id <= 30 \/ id = hi)
   | SImmLt _ _ lim, OImm _ v :: _ => 0 <= v < lim
+  | SImmRsub _ _ _ lo hi, OImm _ v :: _ => lo <= v <= hi
+  | SFpImm _ _, OImm p v :: _ =>          (* a double Imm (or an int32 Imm) whose value is one of the 256 imm8 numbers *)
+      (256 <= p \/ - 2 ^ 31 <= v < 2 ^ 31) /\ 0 <= fimm_bits p v < 2 ^ 64 /\ is_fp_imm8 9 6 48 (fimm_bits p v) = true /\
+      0 <= encode_fp_imm8 9 6 48 (fimm_bits p v) < 256
   | SSysReg _, OImm _ v :: _ => 32768 <= v <= 65535
   | SImmConst c, OImm _ v :: _ => v = c
   | SMemPostImm _ imm, OMem b None _ _ off m :: _ => 0 <= b <= 31 /\ off = imm /\ m = 2
@@ -313,6 +317,9 @@ Proof.
     rewrite !andb_true_iff, !Z.leb_le, Z.eqb_eq.
     split; [intros (((((A & B) & C) & D) & E) & F0); apply Bool.eqb_prop in A; apply Bool.eqb_prop in B; tauto
            | intros (A & B & C & D & E); subst; rewrite !Bool.eqb_reflx; tauto].
+  - destruct ops as [|[] r]; try (apply F; reflexivity). apply G. rewrite andb_true_iff, !Z.leb_le. tauto.
+  - destruct ops as [|[] r]; try (apply F; reflexivity). cbv zeta. apply G.
+    rewrite !andb_true_iff, orb_true_iff, !andb_true_iff, !Z.leb_le, !Z.ltb_lt. tauto.
 Qed.
 
 Ltac rest_gen H :=
